@@ -313,6 +313,8 @@ struct World<const D: u8> {
     fresh: bool,
     /// the market has virtual inventories (for swaps and for positions)
     vi: bool,
+    /// market tokens minted by the last successful deposit (`withdraw` with `"rt": true` returns them)
+    last_minted: u64,
 }
 
 fn pool2(p: &TestPool<u64>) -> Value {
@@ -350,6 +352,7 @@ impl<const D: u8> World<D> {
             step: 0,
             fresh: true,
             vi,
+            last_minted: 0,
         }
     }
 
@@ -623,6 +626,7 @@ impl<const D: u8> World<D> {
         let snap_ps = self.ps;
         let mut out = Outcome { ok: false, panic: false, err: String::new(), r: zero_report(), rx: zero_rx(), f: zero_funding(), cfg_override: None, pp: zero_partial(), part: None };
         let mut part_pos: Option<TestPosition<u64, D>> = None;
+        let mut minted_now: Option<u64> = None;
         let mut pos_idx = 0usize;
 
         macro_rules! settle {
@@ -654,6 +658,7 @@ impl<const D: u8> World<D> {
                 settle!(res, |r: &mut Map<String, Value>, x: &mut Map<String, Value>, rep: gmsol_model::action::deposit::DepositReport<u64, i64>| {
                     r.insert("in".into(), json!([l, s]));
                     r.insert("minted".into(), json!(*rep.minted()));
+                    minted_now = Some(*rep.minted());
                     x.insert("impact".into(), json!(*rep.price_impact()));
                     x.insert("fpl".into(), json!(*rep.long_token_fees().fee_amount_for_pool()));
                     x.insert("frl".into(), json!(*rep.long_token_fees().fee_amount_for_receiver()));
@@ -662,7 +667,8 @@ impl<const D: u8> World<D> {
                 });
             }
             "withdraw" => {
-                let mt = gu(op, "mt");
+                let mt = if gb(op, "rt") { self.last_minted } else { gu(op, "mt") };
+                arg.insert("mt".into(), json!(mt));
                 let res = guarded(|| self.m.withdraw(mt, prices).and_then(|a| a.execute()));
                 settle!(res, |r: &mut Map<String, Value>, x: &mut Map<String, Value>, rep: gmsol_model::action::withdraw::WithdrawReport<u64>| {
                     r.insert("wd".into(), json!([*rep.long_token_output(), *rep.short_token_output()]));
@@ -881,6 +887,9 @@ impl<const D: u8> World<D> {
                 eprintln!("unknown op {other}");
                 std::process::exit(2);
             }
+        }
+        if let Some(x) = minted_now {
+            self.last_minted = x;
         }
         let cbs: Vec<String> = if out.ok { self.m.callbacks.clone() } else { Vec::new() };
         // swaps inside a decrease, as reported through on_swapped / on_swap_error
